@@ -301,6 +301,31 @@ Proof.
     + cbn [obind rev]. rewrite <- Ev. reflexivity.
 Qed.
 
+(* ---- the Symbolizer level: fill_source_line_info (with Symbolizer::fill_symbol inside) on a fresh frame = frame_of *)
+Lemma src_fill_source_line_info_eq p fuel tbl mods instr :
+  instr < two64 ->
+  (forall idx b sz st, rm_get tbl instr = Some idx -> nth_error mods (Z.to_nat idx) = Some (b, sz, Some st) ->
+     0 <= b /\ fuel_covers st fuel /\ fill_symbol p st b instr <> OutOfFuel) ->
+  src_fill_source_line_info p fuel (mk_sframe instr None empty_out) (tbl, mods) =
+  do r <- frame_of p tbl mods instr;
+  Ret (match r with
+       | None => mk_sframe instr None empty_out
+       | Some (idx, o) => mk_sframe instr (Some idx) o
+       end).
+Proof.
+  intros Hin H. unfold src_fill_source_line_info, frame_of, module_at. cbn [fst snd sf_instr]. unfold module in *.
+  destruct (rm_get tbl instr) as [idx|] eqn:Eq; cbn [obind]; [|reflexivity].
+  destruct (nth_error mods (Z.to_nat idx)) as [[[b sz] [st|]]|] eqn:En; cbn [obind]; try reflexivity.
+  destruct (H idx b sz st eq_refl En) as (Hb & Hf & Hnf).
+  rewrite ?En. cbn [obind].
+  cbv beta iota zeta delta [src_symbolizer_fill_symbol get_symbols mod_base sf_set_module fst snd sf_instr option_map].
+  rewrite src_fill_symbol_eq; try assumption.
+  2:{ intros f Hf0. destruct (rm_get_in _ _ _ Hf0) as (r & Hr & _). exact (Hf r f Hr). }
+  destruct (fill_symbol p st b instr) as [o| | |]; cbn [obind]; try reflexivity.
+  unfold sf_reverse_inlines, sf_apply, frame_inlines. cbn [sf_instr sf_module sf_out o_func o_src o_inl empty_out app snd].
+  destruct o as [[f|] [sc|] inl]; reflexivity.
+Qed.
+
 (* the table built with the compiled finish_item arm (Driver.table_of_src) is build_symtab *)
 From RM Require C11.Driver.
 Lemma src_finish_funcs_eq p l : forall acc, Forall wf_fraw l ->
@@ -351,6 +376,15 @@ Proof.
 Qed.
 
 Lemma compiled_source_tie :
+  (forall p fuel tbl mods instr, instr < two64 ->
+     (forall idx b sz st, rm_get tbl instr = Some idx -> nth_error mods (Z.to_nat idx) = Some (b, sz, Some st) ->
+        0 <= b /\ fuel_covers st fuel /\ fill_symbol p st b instr <> OutOfFuel) ->
+     src_fill_source_line_info p fuel (mk_sframe instr None empty_out) (tbl, mods) =
+     do r <- frame_of p tbl mods instr;
+     Ret (match r with
+          | None => mk_sframe instr None empty_out
+          | Some (idx, o) => mk_sframe instr (Some idx) o
+          end)) /\
   (forall p v w, u64 (w_addr w) -> 0 <= w_size w -> Forall (fun e : range * win_rec => 0 <= w_addr (snd e)) v ->
      src_insert_win_stack_info p v w = do acc <- win_insert (rev v) w; Ret (rev acc)) /\
   (forall p acc cur lines inls, u64 (fn_addr cur) -> u32 (fn_size cur) -> Forall wf_line lines ->
@@ -374,6 +408,7 @@ Lemma compiled_source_tie :
      fill_symbol p st mbase instr <> OutOfFuel ->
      src_fill_symbol p fuel st mbase instr = fill_symbol p st mbase instr).
 Proof.
+  split; [exact src_fill_source_line_info_eq|].
   split; [exact src_insert_win_stack_info_eq|]. split; [exact src_finish_function_eq|].
   split; [exact src_func_memory_range_eq|]. split; [exact src_win_memory_range_eq|].
   split; [exact src_get_inlinee_at_depth_eq|]. split; [exact src_get_outermost_sourceloc_eq|].
